@@ -12,7 +12,10 @@
 (***************************************************************************)
 EXTENDS Upstream, Json
 
-CONSTANT FaultPoints   \* the strata of the fault point (see FaultPoint); {"any"} = unconstrained
+CONSTANTS FaultPoints,  \* the strata of the fault point (see FaultPoint); {"any"} = unconstrained
+          EmitViolating \* TRUE (configurations of a broken variant): print a behaviour as soon as it violates a safety
+                        \* property of Upstream and nothing else - the counterexample is replayed on the real code as a
+                        \* schedule (the real code leaves it where the broken variant deviates, unless it is that variant)
 
 VARIABLES hist, finished,
           fat          \* the stratum of this behaviour: where the fault strikes (chosen in the initial state)
@@ -35,6 +38,11 @@ FaultPoint(f) ==
     [] f = "writer-got"         -> w = "have"                              \* ... about to encode and flush
     [] f = "sender-checked"     -> \E r \in Reqs : spc[r] = "checked"      \* a sender past the quit check, not yet enqueued
     [] f = "sender-after-drain" -> \E r \in Reqs : spc[r] = "checked"      \* ... and held there until Start has drained
+    [] f = "sender-enqueued"    -> (\E r \in Reqs : spc[r] = "enqueued") /\ proc # <<>> /\ rd = "decoded"
+                                                                           \* a sender between its enqueue and its look at the latch,
+                                                                           \* requests in flight, a reply decoded
+    [] f = "writer-filtered"    -> w = "filtered" /\ wbuf # <<>> /\ pend = <<>> \* the filter answered the request in hand, older
+                                                                           \* requests wait in the write buffer for the flush
     [] f = "queues-loaded"      -> pend # <<>> /\ proc # <<>>              \* requests queued and requests in flight
     [] f = "reader-paired"      -> rd = "paired"                           \* the reader holds a request and its reply
     [] OTHER                    -> FALSE
@@ -49,6 +57,7 @@ SenderGate(r) ==
 WriterGate ==
   CASE w = "select"  -> "client.loopWrite.select"
     [] w = "have"    -> "client.loopWrite.got"
+    [] w = "filtered" -> "client.loopWrite.filtered"
     [] w = "asked"   -> "client.loopWrite.asked"
     [] w = "handoff" -> "client.loopWrite.handoff"
     [] OTHER         -> ""
@@ -74,10 +83,12 @@ Obs == [pend |-> Len(pend), proc |-> Len(proc), quit |-> quit, done |-> done,
         compl |-> compl, res |-> res]
 
 \* the named windows of Upstream that hold in the current state (the check draws a mandatory stratum of behaviours per window)
-WindowNames == <<"W_CheckedThenQuit", "W_EnqueueAfterDrain", "W_WriterHandoffQuit", "W_ReaderWaitsForHandoff",
+WindowNames == <<"W_SenderEnqueuedAtQuit", "W_FilteredFlushOnDeadConn", "W_CheckedThenQuit", "W_EnqueueAfterDrain", "W_WriterHandoffQuit", "W_ReaderWaitsForHandoff",
                  "W_SenderBlockedOnDeadQueue", "W_AskHandoffQuit", "W_AskHandoffBlocked", "W_ReaderHoldsReplyAtQuit">>
 WindowHolds(n) ==
   CASE n = "W_CheckedThenQuit"          -> W_CheckedThenQuit
+    [] n = "W_SenderEnqueuedAtQuit"     -> W_SenderEnqueuedAtQuit
+    [] n = "W_FilteredFlushOnDeadConn"  -> W_FilteredFlushOnDeadConn
     [] n = "W_EnqueueAfterDrain"        -> W_EnqueueAfterDrain
     [] n = "W_WriterHandoffQuit"        -> W_WriterHandoffQuit
     [] n = "W_ReaderWaitsForHandoff"    -> W_ReaderWaitsForHandoff
@@ -106,8 +117,12 @@ LogEnv(a, r, wakes) ==
 
 GenInit == Init /\ hist = <<>> /\ finished = FALSE /\ fat \in FaultPoints
 
+Lost == Stuck /\ \E r \in Reqs : spc[r] # "idle" /\ compl[r] # 1
+Violating == ~AtMostOnce \/ ~OwnReply \/ Lost
+
 Finish ==
-  /\ ~finished /\ Stuck /\ \A r \in Reqs : spc[r] # "idle"
+  /\ ~finished
+  /\ IF EmitViolating THEN Violating ELSE Stuck /\ \A r \in Reqs : spc[r] # "idle"
   /\ PrintT("@@BEH " \o ToJson([at |-> fat, steps |-> hist]))
   /\ finished' = TRUE
   /\ UNCHANGED <<vars, hist, fat>>
@@ -124,8 +139,11 @@ HeldAtHandoff ==
 \* stratum "sender-after-drain": a sender that has passed the quit check is slow until Start has finished its drain
 HeldAtEnqueue == fat = "sender-after-drain" /\ quit /\ main \notin {"drained", "done"}
 
+\* stratum "sender-enqueued": a sender is slow between its enqueue and its look at the latch until the fault
+HeldAtRecheck == fat = "sender-enqueued" /\ ~quit
+
 GenNext ==
-  /\ ~finished
+  /\ ~finished /\ ~(EmitViolating /\ Violating)
   /\ IF fat # "any" /\ stp = "idle" /\ WithStop
        THEN CallStop /\ LogEnv("CallStop", "", "X")
        ELSE IF Armed
@@ -136,11 +154,12 @@ GenNext ==
           \/ CallSend(r) /\ LogEnv("CallSend", r, "S")
           \/ SendCheck(r) /\ Log("SendCheck", "S", r)
           \/ SendEnqueue(r) /\ ~HeldAtEnqueue /\ Log("SendEnqueue", "S", r)
-          \/ SendRecheck(r) /\ Log("SendRecheck", "S", r)
+          \/ SendRecheck(r) /\ ~HeldAtRecheck /\ Log("SendRecheck", "S", r)
           \/ SendDrainTake(r) /\ Log("SendDrainTake", "S", r)
           \/ SendDrainAnswer(r) /\ Log("SendDrainAnswer", "S", r)
      \/ WriterSelect /\ Log("WriterSelect", "W", "")
      \/ WriterFiltered /\ Log("WriterFiltered", "W", "")
+     \/ WriterFilteredFlush /\ Log("WriterFilteredFlush", "W", "")
      \/ WriterAsk /\ Log("WriterAsk", "W", "")
      \/ WriterEncode /\ Log("WriterEncode", "W", "")
      \/ WriterHandoff /\ ~HeldAtHandoff /\ Log("WriterHandoff", "W", "")
